@@ -366,6 +366,8 @@ def run(ctx):
     run_dag(ctx, ctx.budget(160, 5000), tiny=True)
     run_family(ctx)
     run_cyclic(ctx, ctx.budget(50, 1500))
+    import e1werr   # E1_cycles: LP of kMinPathErrorCycles == WalkErrEnc.encode_kmpe_cycles (harness/e1werr.py)
+    e1werr.run_e1_cycles(ctx, "kMinPathErrorCycles", c07.rand_cyclic_err, ctx.budget(50, 1200), "mpe-cyc-e1")
 
 
 def replay(ctx, body):
